@@ -171,11 +171,32 @@ class Builtins:
                    "sin": self.m_sin, "gcd": self.m_gcd}
             if attr in fns:
                 return Builtin("math." + attr, fns[attr])
+        if modname == "unicodedata" and attr == "normalize":
+            def norm(a, k):
+                if len(a) != 2 or not isinstance(a[0], str):
+                    raise Unsupported("unicodedata.normalize with a symbolic form")
+                return self.ext_name_function(f"unicodedata.normalize[{a[0]}]", ["unicodedata", "normalize", [a[0]]], a[1])
+            return Builtin("unicodedata.normalize", norm)
         if modname == "re" and attr == "compile":
             return Builtin("re.compile", lambda a, k: RegexObj(a[0]))
         if modname == "logging" and attr in ("warning", "info", "debug", "error"):
             return Builtin("logging." + attr, lambda a, k: None)
         raise Unsupported(f"external {modname}.{attr}")
+
+    def ext_name_function(self, tag, real, v):
+        """A pure str -> str function of the standard library (normalisation, case mapping ...)
+        applied to a symbolic name: an uninterpreted function Name -> Name.  Nothing is known
+        about it, so a proof that goes through is sound, while a refutation may rest on a value
+        the real function never returns: such obligations are marked weak and count as a
+        violation only when the replay on the real code reproduces them."""
+        I = self.I
+        if isinstance(v, str):
+            v = SName(sym.literal_name(v))
+        if not isinstance(v, SName):
+            raise Unsupported(f"external {tag} of {v!r}")
+        f = z3.Function(f"ext[{tag}]", sym.Name, sym.Name)
+        I.ghost.setdefault("weak_externals", {})[tag] = (f, real)
+        return SName(f(v.term))
 
     def call_builtin_class(self, cls, args, kwargs):
         fns = {"float": self.b_float, "str": self.b_str, "list": self.b_list, "tuple": self.b_tuple,
@@ -350,6 +371,9 @@ class Builtins:
             if d is None:
                 raise Unsupported(f"operator {t.__name__} on object")
             return I.call(I.getattr_(a, d), [b])
+        from . import gmode as _g, gexec as _ge
+        if t is ast.Add and isinstance(a, _g.SList) and isinstance(b, _g.SList):
+            return _ge.concat(I, a, b)
         if t is ast.Add:
             if isinstance(a, list) and isinstance(b, list):
                 r = list(a) + list(b)
@@ -440,6 +464,20 @@ class Builtins:
                 r = a is b
             elif isinstance(a, Obj) and isinstance(b, Obj):
                 r = a is b
+            elif (isinstance(a, Arb) and isinstance(b, (Obj, Arb))) or (isinstance(b, Arb) and isinstance(a, Obj)):
+                # arbitrary leftover state may or may not be this very object (decided once)
+                arb, other = (a, b) if isinstance(a, Arb) else (b, a)
+                if arb is other:
+                    r = True
+                else:
+                    known = arb.__dict__.setdefault("identity", {})
+                    if id(other) not in known:
+                        if any(known.values()):
+                            known[id(other)] = False          # it already is another object
+                        else:
+                            known[id(other)] = I.path.branch(z3.Bool(I.path.fresh_name(f"{arb.tag}-is-{getattr(other, 'name', 'arb')}")),
+                                                             f"arb-identity({arb.tag})")
+                    r = known[id(other)]
             else:
                 raise Unsupported(f"`is` between {a!r} and {b!r}")
             return r if t is ast.Is else (not r)
@@ -641,6 +679,9 @@ class Builtins:
         raise Unsupported(f"subscript store on {o!r}")
 
     def slice(self, o, lo, hi):
+        from . import gmode, gexec
+        if isinstance(o, gmode.SList):
+            return gexec.slice_list(self.I, o, lo, hi)
         if not isinstance(o, (list, tuple)):
             raise Unsupported(f"slice of {o!r}")
         for x in (lo, hi):
@@ -848,6 +889,9 @@ class Builtins:
         return True
 
     def b_enumerate(self, a, k):
+        from . import gmode, gexec
+        if isinstance(a[0], gmode.SList):
+            return gexec.b_enumerate(self.I, a[0])
         return [(i, x) for i, x in enumerate(self.iterate(a[0]))]
 
     def b_zip(self, a, k):
@@ -954,7 +998,51 @@ class Builtins:
 
     def b_sorted(self, a, k):
         from . import hashing
-        return hashing.sorted_value(self.I, a[0])
+        v = a[0]
+        if isinstance(v, (list, tuple)) and all(is_num(x) for x in v):
+            return self.sorted_numbers(list(v), k)
+        if k:
+            raise Unsupported("sorted() with key / reverse of a non-list value")
+        return hashing.sorted_value(self.I, v)
+
+    def sorted_numbers(self, xs, k):
+        """sorted(numbers, key=..., reverse=...) for a list of known length: the result is
+        *some* permutation of the arguments that is ordered by the key (stability is not
+        modelled: ties may come in either order, which only weakens what is known)."""
+        I = self.I
+        bad = set(k) - {"key", "reverse"}
+        if bad or (k.get("reverse") not in (None, False, True)):
+            raise Unsupported("sorted() with these keyword arguments")
+        n = len(xs)
+        if n <= 1:
+            return list(xs)
+        if n > 7:
+            raise Unsupported("sorted() of more than 7 symbolic numbers")
+        keyf = k.get("key")
+        key = (lambda v: v) if keyf is None else (lambda v: I.call(keyf, [v]))
+        tag = I.path.fresh_name("sorted")
+        perm = [z3.Int(f"{tag}.perm{i}") for i in range(n)]
+        I.path.assume(z3.And(*[z3.And(p >= 0, p < n) for p in perm]))
+        I.path.assume(z3.Distinct(*perm))
+        out = []
+        for i in range(n):
+            t = real_term(xs[n - 1])
+            isint = xs[n - 1].pyint if isinstance(xs[n - 1], SNum) else isinstance(xs[n - 1], int)
+            isint = isint if z3.is_expr(isint) else z3.BoolVal(bool(isint))
+            for j in reversed(range(n - 1)):
+                t = z3.If(perm[i] == j, real_term(xs[j]), t)
+                pj = xs[j].pyint if isinstance(xs[j], SNum) else isinstance(xs[j], int)
+                isint = z3.If(perm[i] == j, pj if z3.is_expr(pj) else z3.BoolVal(bool(pj)), isint)
+            r = z3.Real(f"{tag}.out{i}")
+            I.path.assume(r == t)
+            out.append(SNum(r, z3.simplify(isint)))
+        keys = [key(o) for o in out]
+        if not all(is_num(x) for x in keys):
+            raise Unsupported("sorted() with a key that is not a number")
+        for i in range(n - 1):
+            a_, b_ = real_term(keys[i]), real_term(keys[i + 1])
+            I.path.assume(a_ >= b_ if k.get("reverse") else a_ <= b_)
+        return out
 
     def to_str(self, v):
         I = self.I
